@@ -232,6 +232,14 @@ func runC18(r *simkit.Run) {
 			}
 		}
 		target := prefix + p
+		if c.Chance(60, "service-route") {
+			// the router's routes outside the versioned API (spec document, metrics)
+			target = simkit.Pick(c, []string{"/api.json", "/api.json", "/metrics", "/ui/"}, "service-route-path")
+			if c.Chance(700, "service-route-get") {
+				method = "GET"
+			}
+			r.Probe("requests-to-service-routes")
+		}
 		body := ""
 		if c.Chance(500, "with-body") {
 			body = c18Body
